@@ -202,13 +202,30 @@ def rule_do_group(chk, tpl):
                detail_bad=str(idx), detail_ok=str(idx))
 
 
+def positive(test):
+    """(text of the predicate a template test asks about, whether the test negates it): `not P`, `P is None` for `P is not None`"""
+    neg = False
+    while isinstance(test, ast.UnaryOp) and isinstance(test.op, ast.Not):
+        test, neg = test.operand, not neg
+    if isinstance(test, ast.Compare) and len(test.ops) == 1 and isinstance(test.ops[0], ast.Is) and isinstance(test.comparators[0], ast.Constant) and test.comparators[0].value is None:
+        return U(ast.Compare(left=test.left, ops=[ast.IsNot()], comparators=test.comparators)), not neg
+    return U(test), neg
+
+
+def simplest(test):
+    """the simplest group configuration: every template predicate false except that the group has equations"""
+    t, neg = positive(test)
+    v = t == 'len(group.data) > 0'
+    return (not v) if neg else v
+
+
 def rule_top(chk, tpl):
     """the compute() body: enumerate the template's own branch predicates exhaustively"""
     top = tpl.fn('__template__')
     tests = []
     for n in ast.walk(top):
         if isinstance(n, ast.If):
-            t = U(n.test)
+            t = positive(n.test)[0]           # `% if not group.has_subgroups:` asks about the same predicate as `% if group.has_subgroups:`
             if ('group' in t) and t not in tests:
                 tests.append(t)
     chk.unit('template predicates of compute()', tests)
@@ -224,8 +241,9 @@ def rule_top(chk, tpl):
             # quick tier: skip configurations that differ only in openmp/mode switches (not group predicates)
             pass
         def choose(test, conf=conf):
-            t = U(test)
-            return conf.get(t, True if 'use_openmp' not in t else False)
+            t, neg = positive(test)
+            v = conf.get(t, True if 'use_openmp' not in t else False)
+            return (not v) if neg else v
         nconf += 1
         label = ','.join(k.replace('group.', '').replace(' is not None', '') for k, v in conf.items() if v and 'len(' not in k) or 'plain'
         try:
@@ -319,14 +337,16 @@ def rule_top(chk, tpl):
                 state['k'] = k
 
         def choose2(test, state=state, first_c=first_c, second_c=second_c):
-            t = U(test)
+            t, neg = positive(test)
             if t == 'sub_group.condition is not None':
-                return first_c if state['k'] == 0 else second_c
-            if t in ('group.has_subgroups', 'len(group.data) > 0'):
-                return True
-            if t in tests:
-                return False
-            return 'use_openmp' not in t
+                v = first_c if state['k'] == 0 else second_c
+            elif t in ('group.has_subgroups', 'len(group.data) > 0'):
+                v = True
+            elif t in tests:
+                v = False
+            else:
+                v = 'use_openmp' not in t
+            return (not v) if neg else v
         nseq += 1
         try:
             lines2, table2, mod2 = shape(tpl, '__template__', choose2, unroll={'enumerate(group.data)': 2}, on_iteration=on_it)
@@ -509,9 +529,18 @@ def rule_iteration(chk):
                 import copy
                 test = Sub().visit(copy.deepcopy(iff[0].test))
                 ok = N.same(test, want)
+                # converged() may keep state between calls (iteration counters of pressure solvers): it is evaluated on every pass that is past the minimum, also on the one that
+                # reaches the maximum - the limit test must not short-circuit it away
+                for bo in [x for x in ast.walk(test) if isinstance(x, ast.BoolOp) and isinstance(x.op, ast.Or)]:
+                    seen_max = False
+                    for v_ in bo.values:
+                        if any(isinstance(y, ast.Name) and y.id == '__C__' for y in ast.walk(v_)) and seen_max:
+                            ok = False
+                        if any(isinstance(y, ast.Name) and y.id == 'max_iterations' for y in ast.walk(v_)):
+                            seen_max = True
             chk.decide(ok, 'iteration', 'exit-condition:' + label, node=ic, file=AH, func='get_iteration_check',
-                       detail_bad='exit test is %s, documented: count >= min and (converged or count == max), converged = the group\'s own condition'
-                                  % (U(iff[0].test) if iff else None), detail_ok=U(iff[0].test) if iff else '')
+                       detail_bad='exit test is %s, documented: count >= min and (converged or count == max), converged = the group\'s own condition, evaluated before the limit test '
+                                  '(converged() of an equation may keep state, it is called on the last allowed pass too)' % (U(iff[0].test) if iff else None), detail_ok=U(iff[0].test) if iff else '')
             if iff:
                 ok = any(isinstance(x, ast.Break) for x in iff[0].body) and not iff[0].orelse
                 inc = [st for st in body if isinstance(st, ast.AugAssign) and isinstance(st.op, ast.Add) and U(st.target) == '_iteration_count' and N.same(st.value, '1')]
@@ -632,7 +661,7 @@ def rule_helpers(chk):
 
 def rule_wrapper(chk, tpl):
     # the simplest group configuration: only the classes around compute() matter here
-    lines, table, mod = shape(tpl, '__template__', lambda test: U(test) == 'len(group.data) > 0')
+    lines, table, mod = shape(tpl, '__template__', simplest)
     w = M.find_class(mod, 'ParticleArrayWrapper')
     sz = M.find_func(w, 'size')
     rets = [compact(r.value) for r in ast.walk(sz) if isinstance(r, ast.Return)]
